@@ -330,6 +330,8 @@ pub struct SimGoal<R: Raw> {
     pub comp: Option<(usize, Comp, Vec<f64>, f64)>,
     /// (offset, component kind) redrawn by the `Turn` sampler
     pub turn: Option<(usize, Comp)>,
+    /// metric weight of every layout component
+    pub weights: Vec<f64>,
     /// Some: the predicate measures with the harness's own metric (target as a flat state)
     pub hm: Option<(crate::spaces::HMetric, Vec<f64>)>,
 }
@@ -437,6 +439,27 @@ impl<R: Raw> GoalSampleableRegion<R::StateType> for SimGoal<R> {
                 let mut x = Xo::new(crate::prng::mix(self.seed, "goal", draw_no));
                 let s = self.draw(&mut x);
                 self.fit_comp(s, &mut x)
+            }
+            GoalSampler::Translate => {
+                let mut x = Xo::new(crate::prng::mix(self.seed, "goal", draw_no));
+                let s = self.draw(&mut x);
+                let s = self.fit_comp(s, &mut x);
+                let (mut v, t) = (enc_of::<R>(&s), enc_of::<R>(&self.target));
+                let mut off = 0;
+                for c in &self.lay {
+                    if matches!(c, Comp::SO2 | Comp::SO3) {
+                        v[off..off + c.width()].copy_from_slice(&t[off..off + c.width()]);
+                    }
+                    off += c.width();
+                }
+                // measured with the harness's own metric: the library's may be what is broken
+                let hm = crate::spaces::HMetric { lay: self.lay.clone(), w: self.weights.clone() };
+                if hm.d(&t, &v) <= 0.99 * self.radius * (1.0 + 1e-3) {
+                    let r = R::dec(&self.lay, &v);
+                    if self.comp_ok(&r) { r } else { s }
+                } else {
+                    s
+                }
             }
             GoalSampler::Reflect => {
                 let mut x = Xo::new(crate::prng::mix(self.seed, "goal", draw_no));
@@ -852,6 +875,7 @@ fn run_typed<R: Raw>(scn: &Scenario, opts: &RunOpts) -> Outcome {
                     let k = p.goal.comp.as_ref().map(|cc| cc.comp).or_else(|| (0..lay.len()).find(|i| ws[*i] == 0.0));
                     k.map(|k| (crate::spaces::comp_offset(&lay, k), lay[k]))
                 },
+                weights: crate::spaces::comp_weights(&scn.space),
                 hm: if p.goal.harness_metric { Some((crate::spaces::HMetric::new(&scn.space), p.goal.target.clone())) } else { None },
               });
               goal_cache.borrow_mut().push((pi, g.clone()));
